@@ -59,7 +59,7 @@ func TestVerifFindingF(t *testing.T) {
 	if r.commitIndex != r.lastLogIndex || r.lastApplied() != r.lastLogIndex {
 		t.Fatalf("commit=%d last=%d", r.commitIndex, r.lastLogIndex)
 	}
-	meta, err := doTakeSnapshot(r.fsm, 0, r.configs.Committed)
+	meta, err := doTakeSnapshot(r.fsm, 0)
 	if err != nil {
 		t.Fatal(err)
 	}
@@ -101,7 +101,7 @@ func TestVerifFindingI(t *testing.T) {
 		t.Fatalf("commit=%d want %d", r.commitIndex, firstSegEnd+1)
 	}
 	_ = r.lastApplied()
-	meta, err := doTakeSnapshot(r.fsm, 0, r.configs.Committed) // snapshot at firstSegEnd+1
+	meta, err := doTakeSnapshot(r.fsm, 0) // snapshot at firstSegEnd+1
 	if err != nil {
 		t.Fatal(err)
 	}
